@@ -101,7 +101,9 @@ Definition trim_suffix (suf s : str) : str :=
 
 (** environment of one run *)
 Record env := Env {
-  faults : list nat;        (* indices (in the run's call sequence) of calls that fail *)
+  faults : list nat;        (* indices (in the run's call sequence) of calls that fail without effect *)
+  efaults : list nat;       (* indices of calls that TAKE EFFECT and report an error (a time-out after the
+                               back-end did the work); only Delete and Store have an effect to take *)
   cancel_at : option nat;   (* ctx is cancelled when this call begins *)
   lfe : bool                (* List of a terminal key: empty listing (FileStorage) or error *)
 }.
@@ -114,6 +116,7 @@ Record event := Ev { ev_kind : opk; ev_key : key; ev_ok : bool }.
 Record st := St { sto : store; lg : list event (* newest first *) }.
 
 Definition faulty (e : env) (s : st) : bool := existsb (Nat.eqb (length (lg s))) (faults e).
+Definition efaulty (e : env) (s : st) : bool := existsb (Nat.eqb (length (lg s))) (efaults e).
 Definition cancelled (e : env) (s : st) : bool :=
   match cancel_at e with Some c => (c <? length (lg s))%nat | None => false end.
 Definition logged (k : opk) (ky : key) (ok : bool) (sto' : store) (s : st) : st :=
@@ -159,12 +162,14 @@ Definition do_stat (e : env) (k : key) (s : st) : stat_res * st :=
 
 Definition do_delete (e : env) (k : key) (s : st) : bool * st :=
   if faulty e s then (false, logged KDelete k false (sto s) s)
+  else if efaulty e s then (false, logged KDelete k false (remove k (sto s)) s)
   else (true, logged KDelete k true (remove k (sto s)) s).
 
 (** Store of a terminal key; fails on an existing directory (rename over a directory) *)
 Definition do_store (e : env) (k : key) (n : node) (s : st) : bool * st :=
   if faulty e s then (false, logged KStore k false (sto s) s) else
   if is_dir (sto s) k then (false, logged KStore k false (sto s) s)
+  else if efaulty e s then (false, logged KStore k false (put k n (sto s)) s)
   else (true, logged KStore k true (put k n (sto s)) s).
 
 Definition do_lock (e : env) (s : st) : bool * st :=
@@ -184,8 +189,14 @@ Definition expired_cert (now gr : Z) (c : cls) : bool :=
 Definition stale_staple (now : Z) (c : cls) : bool :=
   match as_staple c with Some nu => cmp_holds clean_staple_cmp now nu | None => true end.
 
+(** *** the clock. The code reads the clock several times during a run (time.Since for the interval
+    check, time.Now / time.Since for every staple and certificate it judges, time.Now for the record).
+    [clk i] = what the clock shows when the run has made i Storage/Locker calls; a reading taken in
+    state s is [rd clk s]. Nothing is assumed about [clk] (not even monotonicity). *)
+Definition rd (clk : nat -> Z) (s : st) : Z := clk (length (lg s)).
+
 (** *** deleteOldOCSPStaples *)
-Fixpoint staples_loop (e : env) (now : Z) (ks : list key) (s : st) : st :=
+Fixpoint staples_loop (e : env) (clk : nat -> Z) (ks : list key) (s : st) : st :=
   match ks with
   | [] => s
   | k :: r =>
@@ -193,17 +204,17 @@ Fixpoint staples_loop (e : env) (now : Z) (ks : list key) (s : st) : st :=
       let '(res, s1) := do_load e k s in
       match res with
       | LOk _ c =>
-          if stale_staple now c
-          then let '(_, s2) := do_delete e k s1 in staples_loop e now r s2
-          else staples_loop e now r s1
-      | _ => staples_loop e now r s1
+          if stale_staple (rd clk s1) c
+          then let '(_, s2) := do_delete e k s1 in staples_loop e clk r s2
+          else staples_loop e clk r s1
+      | _ => staples_loop e clk r s1
       end
   end.
-Definition delete_old_staples (e : env) (now : Z) (s : st) : st :=
+Definition delete_old_staples (e : env) (clk : nat -> Z) (s : st) : st :=
   let '(res, s1) := do_list e prefix_ocsp s in
   match res with
   | None => s1
-  | Some ks => staples_loop e now ks s1
+  | Some ks => staples_loop e clk ks s1
   end.
 
 (** *** deleteExpiredCerts; the boolean is "returned an error" (stops the whole function) *)
@@ -213,37 +224,37 @@ Fixpoint delete_related (e : env) (base : key) (sufs : list str) (s : st) : st :
   | x :: r => let '(_, s1) := do_delete e (base ++ x) s in delete_related e base r s1
   end.
 
-Fixpoint assets_loop (e : env) (now gr : Z) (assets : list key) (s : st) : bool * st :=
+Fixpoint assets_loop (e : env) (clk : nat -> Z) (gr : Z) (assets : list key) (s : st) : bool * st :=
   match assets with
   | [] => (false, s)
   | a :: r =>
-      if negb (seqb (path_ext a) clean_ext_crt) then assets_loop e now gr r s else
+      if negb (seqb (path_ext a) clean_ext_crt) then assets_loop e clk gr r s else
       let '(res, s1) := do_load e a s in
       match res with
       | LOk _ c =>
           match as_cert c with
           | None => (true, s1)
           | Some _ =>
-              if expired_cert now gr c then
+              if expired_cert (rd clk s1) gr c then
                 let base := trim_suffix clean_trim_suffix a in
                 let '(_, s2) := do_delete e a s1 in
-                assets_loop e now gr r (delete_related e base clean_related_suffixes s2)
-              else assets_loop e now gr r s1
+                assets_loop e clk gr r (delete_related e base clean_related_suffixes s2)
+              else assets_loop e clk gr r s1
           end
       | _ => (true, s1)
       end
   end.
 
-Fixpoint sites_loop (e : env) (now gr : Z) (sites : list key) (s : st) : bool * st :=
+Fixpoint sites_loop (e : env) (clk : nat -> Z) (gr : Z) (sites : list key) (s : st) : bool * st :=
   match sites with
   | [] => (false, s)
   | sk :: r =>
       if cancelled e s then (true, s) else
       let '(res, s1) := do_list e sk s in
       match res with
-      | None => sites_loop e now gr r s1
+      | None => sites_loop e clk gr r s1
       | Some assets =>
-          let '(ab, s2) := assets_loop e now gr assets s1 in
+          let '(ab, s2) := assets_loop e clk gr assets s1 in
           if ab then (true, s2) else
           let '(res2, s3) := do_list e sk s2 in
           match res2 with
@@ -252,32 +263,32 @@ Fixpoint sites_loop (e : env) (now gr : Z) (sites : list key) (s : st) : bool * 
               match sr with
               | StatDir =>
                   let '(ok, s5) := do_delete e sk s4 in
-                  if ok then sites_loop e now gr r s5 else (true, s5)
-              | _ => sites_loop e now gr r s4
+                  if ok then sites_loop e clk gr r s5 else (true, s5)
+              | _ => sites_loop e clk gr r s4
               end
-          | _ => sites_loop e now gr r s3
+          | _ => sites_loop e clk gr r s3
           end
       end
   end.
 
-Fixpoint issuers_loop (e : env) (now gr : Z) (iss : list key) (s : st) : bool * st :=
+Fixpoint issuers_loop (e : env) (clk : nat -> Z) (gr : Z) (iss : list key) (s : st) : bool * st :=
   match iss with
   | [] => (false, s)
   | ik :: r =>
       let '(res, s1) := do_list e ik s in
       match res with
-      | None => issuers_loop e now gr r s1
+      | None => issuers_loop e clk gr r s1
       | Some sites =>
-          let '(ab, s2) := sites_loop e now gr sites s1 in
-          if ab then (true, s2) else issuers_loop e now gr r s2
+          let '(ab, s2) := sites_loop e clk gr sites s1 in
+          if ab then (true, s2) else issuers_loop e clk gr r s2
       end
   end.
 
-Definition delete_expired_certs (e : env) (now gr : Z) (s : st) : bool * st :=
+Definition delete_expired_certs (e : env) (clk : nat -> Z) (gr : Z) (s : st) : bool * st :=
   let '(res, s1) := do_list e prefix_certs s in
   match res with
   | None => (false, s1)
-  | Some iss => issuers_loop e now gr iss s1
+  | Some iss => issuers_loop e clk gr iss s1
   end.
 
 (** *** CleanStorage *)
@@ -286,7 +297,7 @@ Definition result_code (r : result) : N :=
   match r with RNil => 0 | RErrLock => 1 | RErrLoad => 2 | RErrDecode => 3 | RErrStore => 4 end%N.
 
 Inductive ires := IProceed | ISkip | IAbort (r : result).
-Definition interval_check (e : env) (o : opts) (now : Z) (s : st) : ires * st :=
+Definition interval_check (e : env) (o : opts) (clk : nat -> Z) (s : st) : ires * st :=
   if 0 <? interval o then
     let '(res, s1) := do_load e clean_storage_key s in
     match res with
@@ -296,7 +307,7 @@ Definition interval_check (e : env) (o : opts) (now : Z) (s : st) : ires * st :=
         match as_clean c with
         | None => (IAbort RErrDecode, s1)
         | Some (ts, _) =>
-            if cmp_holds clean_interval_cmp (now - ts) (interval o) then (ISkip, s1) else (IProceed, s1)
+            if cmp_holds clean_interval_cmp (rd clk s1 - ts) (interval o) then (ISkip, s1) else (IProceed, s1)
         end
     end
   else (IProceed, s).
@@ -305,29 +316,29 @@ Definition interval_check (e : env) (o : opts) (now : Z) (s : st) : ires * st :=
 Definition written (now : Z) (o : opts) : node :=
   File (-1) (Cls None None (Some (now, inst o))).
 
-Definition clean_locked (e : env) (o : opts) (now : Z) (s : st) : result * st :=
-  match interval_check e o now s with
+Definition clean_locked (e : env) (o : opts) (clk : nat -> Z) (s : st) : result * st :=
+  match interval_check e o clk s with
   | (IAbort r, s1) => (r, s1)
   | (ISkip, s1) => (RNil, s1)
   | (IProceed, s1) =>
-      let s2 := if do_ocsp o then delete_old_staples e now s1 else s1 in
-      let s3 := if do_certs o then snd (delete_expired_certs e now (grace o) s2) else s2 in
-      let '(ok, s4) := do_store e clean_storage_key (written now o) s3 in
+      let s2 := if do_ocsp o then delete_old_staples e clk s1 else s1 in
+      let s3 := if do_certs o then snd (delete_expired_certs e clk (grace o) s2) else s2 in
+      let '(ok, s4) := do_store e clean_storage_key (written (rd clk s3) o) s3 in
       (if ok then RNil else RErrStore, s4)
   end.
 
-Definition clean (e : env) (o : opts) (now : Z) (s0 : store) : result * st :=
+Definition clean (e : env) (o : opts) (clk : nat -> Z) (s0 : store) : result * st :=
   let '(ok, s1) := do_lock e (St s0 []) in
   if ok then
-    let '(r, s2) := clean_locked e o now s1 in (r, do_unlock e s2)
+    let '(r, s2) := clean_locked e o clk s1 in (r, do_unlock e s2)
   else (RErrLock, s1).
 
 (** several cleanings one after the other (the order in which cleaners get the lock) *)
-Record run := Run { r_env : env; r_opts : opts; r_now : Z }.
+Record run := Run { r_env : env; r_opts : opts; r_clk : nat -> Z }.
 Fixpoint clean_seq (runs : list run) (s : store) : store :=
   match runs with
   | [] => s
-  | r :: rest => clean_seq rest (sto (snd (clean (r_env r) (r_opts r) (r_now r) s)))
+  | r :: rest => clean_seq rest (sto (snd (clean (r_env r) (r_opts r) (r_clk r) s)))
   end.
 
 (** *** vocabulary of the specification *)
@@ -418,6 +429,9 @@ Definition mutates (k : opk) : bool := match k with KDelete | KStore => true | _
 Definition has_kind (p : opk -> bool) (l : list event) : bool := existsb (fun ev => p (ev_kind ev)) l.
 Definition stored_ok (l : list event) : bool :=
   existsb (fun ev => match ev_kind ev with KStore => seqb (ev_key ev) spec_last_clean && ev_ok ev | _ => false end) l.
+(** a Store of last_clean.json was issued (whatever it reported) *)
+Definition stored_any (l : list event) : bool :=
+  existsb (fun ev => match ev_kind ev with KStore => seqb (ev_key ev) spec_last_clean | _ => false end) l.
 Definition does_work (k : opk) : bool :=
   match k with KList | KStat | KDelete | KStore => true | _ => false end.
 
